@@ -125,6 +125,11 @@ func (o *Obligation) scriptV(P *Prog, models bool, hide int) string {
 		b.WriteString(eq)
 		b.WriteString(")\n")
 	}
+	for _, ax := range P.frameAxioms(append(append([]string(nil), o.Facts...), o.Neg)) {
+		b.WriteString("(assert ")
+		b.WriteString(ax)
+		b.WriteString(")\n")
+	}
 	b.WriteString("(check-sat)\n")
 	if models {
 		b.WriteString("(get-model)\n")
